@@ -97,15 +97,16 @@ def named_stream(ck, want):
         ck.note_case('named-%d' % i, nontrivial=True)
         bad = None
         if want == 'sound' and not r['conforms'] and r['out'] == 0:
-            bad = 'a named tuple that does not conform was accepted: ' + r['name']
+            bad = 'a value that does not conform was accepted (impl-only table): ' + r['name']
         if want == 'sound' and not r['conforms'] and r['out'] not in (0, 1):
-            bad = f'a non-conforming named tuple was rejected with {OUT_NAMES.get(r["out"])}: ' + r['name']
+            bad = f'a non-conforming value (impl-only table) was rejected with {OUT_NAMES.get(r["out"])}: ' + r['name']
         if want == 'complete' and r['conforms'] and r['out'] != 0:
-            bad = 'a conforming named tuple was rejected: ' + r['name']
+            bad = 'a conforming value was rejected (impl-only table): ' + r['name']
         if want == 'contain' and r['out'] in (4, 5):
             bad = f'{r.get("exc")} escaped: ' + r['name']
         if bad:
-            ck.violation(bad, {'obs': 'named', 'i': i, 'stream': 'named', 'name': r['name']}, stream='named', extra={'impl': r})
+            ck.violation(bad, {'obs': 'named', 'i': i, 'stream': 'named', 'name': r['name'], '_out': r['out']}, stream='named', matcher=matcher,
+                         extra={'impl': r})
     ck.coverage['named_tuple_table'] = {'cases': n, 'judged_as': want}
 
 
@@ -191,6 +192,8 @@ def matcher(f, case):
     if m.get('id') == 'abc_spelled_generic':
         # only the registered symptom: rejected with PedanticTypeCheckException, and the faithful model says the same
         return has_abc(case.get('reified', case).get('ann')) and case.get('_I') == 1 and case.get('_M') == 1
+    if m.get('id') == 'named_row':
+        return case.get('obs') == 'named' and case.get('name') in m.get('names', []) and case.get('_out') == m.get('out')
     if m.get('id') == 'corner_call':
         return case.get('obs') == 'corner' and case.get('name') in m.get('names', []) and case.get('exc_class') == m.get('exc_class')
     return False
